@@ -47,9 +47,11 @@ type Contract struct {
 	Covers   []*Clause
 	Opaque   bool // body not verified, not trusted either: listed as unverified
 	Replay   *replaySpec
+	Dispatch string // interface-method contract: the receiver's dynamic type must be this type; the concrete method's contract applies
 	Uses     []*Clause // axiom instances assumed at entry
 	PostUses []*Clause // axiom instances assumed at every return
 	LoopUse  map[int][]*Clause
+	Allocates []*Clause // callee side: the call allocates this many bytes up front (checked against the caller's alloc bounds)
 	Allocs   []*Clause // allocation-size bounds (C13): expression over n (element count) and esize
 }
 
@@ -80,7 +82,7 @@ func newContractSet() *ContractSet {
 	return &ContractSet{ByFunc: map[string]*Contract{}, Field: map[string]*Contract{}, Ghost: map[string]string{}, Macros: map[string]*Macro{}, ConstGlobals: map[string]bool{}}
 }
 
-var reKind = regexp.MustCompile(`^(requires|ensures|modifies|decreases|invariant|assume|let|cover|alloc|use|postuse)(\[[A-Za-z0-9, ]+\])?(\([A-Za-z0-9_.\-]+\))?\s+(.*)$`)
+var reKind = regexp.MustCompile(`^(requires|ensures|modifies|decreases|invariant|assume|let|cover|allocates|alloc|use|postuse)(\[[A-Za-z0-9, ]+\])?(\([A-Za-z0-9_.\-]+\))?\s+(.*)$`)
 var reLoop = regexp.MustCompile(`^loop\s+(\d+)\s*:\s*(.*)$`)
 
 // qualify turns a short function name used in a contract file into the ssa
@@ -231,6 +233,10 @@ func (cs *ContractSet) ParseFile(path string, pkg string, external bool) error {
 			cur.Replay = parseReplay(strings.TrimPrefix(body, "replay "))
 			last = nil
 			continue
+		case strings.HasPrefix(body, "dispatch "):
+			cur.Dispatch = strings.TrimSpace(strings.TrimPrefix(body, "dispatch "))
+			last = nil
+			continue
 		case body == "inline":
 			cur.Inline = true
 			last = nil
@@ -290,6 +296,8 @@ func (cs *ContractSet) ParseFile(path string, pkg string, external bool) error {
 				cur.Covers = append(cur.Covers, cl)
 			case cl.Kind == "alloc":
 				cur.Allocs = append(cur.Allocs, cl)
+			case cl.Kind == "allocates":
+				cur.Allocates = append(cur.Allocates, cl)
 			case loop > 0 && cl.Kind == "use":
 				cur.LoopUse[loop] = append(cur.LoopUse[loop], cl)
 			case cl.Kind == "use":
